@@ -9,6 +9,46 @@
 use std::sync::atomic::{AtomicU64, AtomicUsize, Ordering};
 use std::sync::{Arc, Condvar, Mutex};
 
+// ---- panics: a panic raised INSIDE akd / akd_core code while a case runs is an observation about
+// the subject (recorded, reported as a violation by Report::finish); a panic raised by harness code is a
+// machinery failure and is re-raised.
+thread_local! {
+    static LAST_PANIC: std::cell::RefCell<Option<(String, String)>> = const { std::cell::RefCell::new(None) };
+}
+pub static SUBJECT_PANICS: Mutex<Vec<(String, String)>> = Mutex::new(Vec::new());
+
+pub fn install_panic_hook() {
+    let default = std::panic::take_hook();
+    std::panic::set_hook(Box::new(move |info| {
+        let loc = info.location().map(|l| format!("{}:{}", l.file(), l.line())).unwrap_or_default();
+        let msg = info
+            .payload()
+            .downcast_ref::<String>()
+            .cloned()
+            .or_else(|| info.payload().downcast_ref::<&str>().map(|s| s.to_string()))
+            .unwrap_or_else(|| "panic".into());
+        let in_subject = loc.starts_with("/repo/") || loc.contains("/akd/src/") || loc.contains("/akd_core/src/");
+        LAST_PANIC.with(|p| *p.borrow_mut() = Some((loc.clone(), msg.clone())));
+        if !in_subject && std::env::var("AKDMC_QUIET_PANICS").is_err() {
+            default(info);
+        }
+    }));
+}
+
+/// run `f`; a panic from inside the subject is recorded and swallowed, any other panic is re-raised
+pub fn guard_case<F: FnOnce()>(f: F) {
+    LAST_PANIC.with(|p| *p.borrow_mut() = None);
+    if let Err(payload) = std::panic::catch_unwind(std::panic::AssertUnwindSafe(f)) {
+        let last = LAST_PANIC.with(|p| p.borrow_mut().take());
+        match last {
+            Some((loc, msg)) if loc.starts_with("/repo/") || loc.contains("/akd/src/") || loc.contains("/akd_core/src/") => {
+                SUBJECT_PANICS.lock().unwrap().push((loc, msg));
+            }
+            _ => std::panic::resume_unwind(payload),
+        }
+    }
+}
+
 #[derive(Clone, Debug)]
 pub struct Point {
     pub n: u32,
@@ -125,7 +165,7 @@ where
                 };
                 let plen = prefix.len();
                 let mut ch = Chooser::new(prefix, Some(expect));
-                run(&mut ch);
+                guard_case(|| run(&mut ch));
                 if let Some(d) = &ch.diverged {
                     eprintln!("MACHINERY ERROR: nondeterministic replay: {d}");
                     std::process::exit(2);
@@ -185,7 +225,7 @@ pub fn par_for<T: Sync, F: Fn(usize, &T) + Send + Sync>(threads: usize, items: &
                 if i >= items.len() {
                     return;
                 }
-                f(i, &items[i]);
+                guard_case(|| f(i, &items[i]));
             });
         }
     });
